@@ -191,3 +191,14 @@ CLAIMS['C03'] = dict(
          'chunk = hex size line + data + CRLF, terminator only when completed, Transfer-Encoding iff chunking, Content-Length only for a complete single write; every output-side field is reset by reset_all/keep_alive/set_response_headers or survives by design; '
          'after a short write the re-queued data is exactly (buffer written)+(bytes written), new data alone only when nothing was sent, pending output dropped only when everything was sent, the async continuation advances by exactly n.',
     note='Not decided: the arithmetic inside append_pending / async_io_buf, gzip content, header formatter agreement (response_headers.h), cache tee. The 17-symbol allow-list of C01 applies.')
+
+CLAIMS['C04'] = dict(
+    category='other',
+    engine='cppcms-facts + vlib/absint + vlib rules',
+    technique='static analysis: stage-order / domination rules on the CFG, sibling agreement between validate and the filter, exhaustive-switch check, abstract interpretation of the escape switch for every byte',
+    text='Absence of a bypass string for unbounded inputs is NOT decided. Decided necessary conditions: validate and validate_and_filter_if_invalid run split_to_parts, parse_part (every entry), validate_nesting, validate_entry_by_rules (every entry) in that order '
+         'on [begin,end); after transcoding a non-ASCII-compatible encoding both pointers are rebased onto the transcoded buffer before the tokeniser runs, and charset validation runs on that same range whenever an encoding is configured; every failing stage edge '
+         'reaches `return false` in validate and `valid=false` in the filter, a rule failure marks the entry and its partner tag invalid, the filter reports true only if still valid and then leaves the output untouched; '
+         'an entry is copied verbatim only on the not-invalid edge and as its own [begin,end), invalid entries are dropped (remove mode) or go through the escape switch, which for all 256 bytes emits &lt; &gt; &amp; &quot; and otherwise the byte; '
+         'validate_entry_by_rules has a case for each of the html_data_type enumerators, rejects invalid_data, unparsed html_tag, unknown kinds and unlisted tags, consults valid_tag / valid_entity and valid_property or valid_boolean_property for every attribute, rejects duplicates; only regex_match is used (its anchoring is C20.R1).',
+    note='Not decided: tokeniser tiling, attribute-value entity parsing, numeric entity range (parse_html_entity accepts low surrogates DC00-DFFF textually: observation), nesting checker semantics, stability filter(filter(x)) as a value property.')
